@@ -28,6 +28,8 @@ RULE = (
     "Distinct = distinct case hash; non-trivial = at least one missing and "
     "one present label with >=2 annotators (majority_vote cases with a tied "
     "row are counted separately as tie=yes).")
+RULE += (" Further generated dimensions (added while closing seeded "
+         "changes): " + 'Fortran-ordered and strided label / weight matrices; integer classes that are not 0..K-1; argument arrays unchanged by value' + ".")
 ASSUMPTIONS = [
     "weights are finite and non-negative (NaN weights are treated as 0 by "
     "the code but this is undocumented - not generated)",
